@@ -52,3 +52,21 @@ package convert
 //@   tags C20
 //@   frame_only
 //@   fresh result.1 when (not (= (Slice.ptr result.1) 0))
+//
+// Conversion closures (C08). A conversion is called with a value of its source type; `calls conv`
+// states what the element conversion it was built with guarantees (a well-formed value whose type
+// conforms to the requested element type), which is what this closure itself guarantees one level up.
+//@ func convert.conversionCollectionToList$1
+//@   tags C08
+//@   may_panic
+//@   let E ($at<cty.Type> ety)
+//@   let CV ($at<Func> conv)
+//@   requires (and (wf_deep val) (wf_ty E) (not (has_opt E)) (or (is_list_ty (vty val)) (is_set_ty (vty val))))
+//@   requires (=> (= CV nil.Func) (conforms (elem_ty (vty val)) E))
+//@   ensures[C08] conforms: (=> (= result.1 nil.Any) (conforms (vty result.0) (ty_list E)))
+//@   loop 1 invariant (and (slice.ok elems) (or (= (Slice.ptr elems) 0) (< (Slice.ptr elems) 0)))
+//@   loop 1 invariant wf: (forall ((j Int)) (! (=> (and (trig j) (<= 0 j) (< j (Slice.len elems))) (wf_deep (hval_at $H<Arr<cty.Value>> elems j))) :pattern ((trig j))))
+//@   loop 1 invariant cf: (forall ((j Int)) (! (=> (and (trig j) (<= 0 j) (< j (Slice.len elems))) (conforms (vty (hval_at $H<Arr<cty.Value>> elems j)) E)) :pattern ((trig j))))
+//@   calls conv
+//@     may_panic
+//@     ensures (=> (= result.1 nil.Any) (and (wf_deep result.0) (conforms (vty result.0) E) (not (has_opt (vty result.0)))))
